@@ -34,6 +34,12 @@ CHECKS = {
                 'node-load computation',
                 text='held at every start request observed, except the listed known findings (load accounting across '
                      'applications started together)', ref='8/C04', note=TRUST_L3),
+    'C07': dict(engine=ENGINE_L3, technique='runtime monitoring: online shadow counter per (observer, peer) fed by the '
+                'TICK deliveries and XML-RPC failures seen on the transport, evaluated around every periodic check '
+                '(hooks on the timer / tick / failure entry points and on every peer state change), plus an edge '
+                'table for the peer state graph and a before / after comparison of the status API at invalidation',
+                text='held on every periodic check, peer state change and invalidation observed; accuracy judged for '
+                     'peers seen RUNNING as stated', ref='8/C07', note=TRUST_L3),
     'C08': dict(engine=ENGINE_L3, technique='runtime monitoring: bounded-progress oracle (K / 2K ticks of virtual '
                 'time) over sampled API views after state-triggered fault scripts',
                 text='liveness restated as bounded progress after disturbances stop; verdict in logical ticks, never '
